@@ -2,7 +2,7 @@
    option, unit, list, prod, sumbool, sumor map to the OCaml types; N, Z,
    positive, nat stay the extracted inductives. No Extract Constant. *)
 From Coq Require Import Extraction ExtrOcamlBasic.
-Require Import Base Value PrintOptions Printer Sink Float NumberOps.
+Require Import Base Value PrintOptions Printer Sink Float NumberOps ListOps.
 
 Extraction "model.ml"
   s2b beq_bytes value_eqb build vlist
@@ -12,4 +12,6 @@ Extraction "model.ml"
   N.add N.mul N.sub N.div N.modulo N.eqb N.leb N.ltb N.of_nat N.to_nat Z.of_N Z.to_N
   f64_of_Z f64_of_N f64_mul f64_div f64_neg pow10_f64 is_finite_f64
   kind_predicates as_str as_symbol as_keyword as_name as_bytes as_bool as_char as_i64 as_u64 as_f64
-  is_i64 is_u64 is_f64 value_from_prim value_eq_prim prim_eq_value f32_of_bits num_from_f64.
+  is_i64 is_u64 is_f64 value_from_prim value_eq_prim prim_eq_value f32_of_bits num_from_f64
+  value_append value_list cons_to_vec cons_into_vec into_iter_items iter_cells value_to_vec
+  list_iter_next drain value_list_iter get_usize get_str get_value index_or_nil is_list is_dotted_list.
